@@ -94,18 +94,21 @@ Definition credit (nd : nodes_t) (node : Z) (tr : list leaf_act) : nodes_t :=
   match tr with [] => nd | _ => upd nd node (node_acts tr (nd node)) end.
 
 (* tags: 1 recordPassFor [node; count], 2 recordBlockFor [node; count],
-   3 recordCompleteFor [node; count; rt; err], 4 ctx.PutRt [rt].  The helper called is the
-   regenerated one. *)
-Definition slot_act (st : ctx * nodes_t) (a : leaf_act) : ctx * nodes_t :=
+   3 recordCompleteFor [node; count; rt; err], 4 ctx.PutRt [rt].  The helpers called (rp rb rc) are
+   parameters, instantiated in every statement below with the REGENERATED ones - written out, so that
+   each statement names the Gen definitions it depends on (the driver drops exactly the blocks whose
+   target cannot be regenerated on the tree under test). *)
+Definition slot_act (rp rb : Z -> bool -> list leaf_act) (rc : Z -> bool -> Z -> bool -> list leaf_act)
+    (st : ctx * nodes_t) (a : leaf_act) : ctx * nodes_t :=
   let '(x, nd) := st in
   match a with
-  | (1, [LZ node; LZ n]) => (x, credit nd node (stat_recordPassFor n (node =? NILNODE)))
-  | (2, [LZ node; LZ n]) => (x, credit nd node (stat_recordBlockFor n (node =? NILNODE)))
-  | (3, [LZ node; LZ n; LZ rt; LZ err]) => (x, credit nd node (stat_recordCompleteFor n (err =? 0) rt (node =? NILNODE)))
+  | (1, [LZ node; LZ n]) => (x, credit nd node (rp n (node =? NILNODE)))
+  | (2, [LZ node; LZ n]) => (x, credit nd node (rb n (node =? NILNODE)))
+  | (3, [LZ node; LZ n; LZ rt; LZ err]) => (x, credit nd node (rc n (err =? 0) rt (node =? NILNODE)))
   | (4, [LZ rt]) => (set_rt x rt, nd)
   | _ => st
   end.
-Definition slot_acts (tr : list leaf_act) (st : ctx * nodes_t) : ctx * nodes_t := fold_left slot_act tr st.
+Definition slot_acts rp rb rc (tr : list leaf_act) (st : ctx * nodes_t) : ctx * nodes_t := fold_left (slot_act rp rb rc) tr st.
 
 (* base.Inbound = 0 *)
 Definition flow_code (x : ctx) : Z := if x_inb x then 0 else 1.
@@ -157,7 +160,7 @@ Proof. unfold INB, NILNODE; lia. Qed.
 (* Slot.OnEntryPassed: ctx.StatNode (if set), then the inbound node iff the traffic is inbound;
    for every value ft of ctx.Resource.FlowType() *)
 Theorem stat_OnEntryPassed_ok x nd ft : x_res x <> NILNODE -> x_inb x = (ft =? 0) ->
-  slot_acts (stat_OnEntryPassed (x_batch x) ft INB (node_id x)) (x, nd) =
+  slot_acts stat_recordPassFor stat_recordBlockFor stat_recordCompleteFor (stat_OnEntryPassed (x_batch x) ft INB (node_id x)) (x, nd) =
   (x, on_nodes nd x (fun c => node_pass c (x_batch x))).
 Proof.
   intros Hr Hi. flow_facts Hi. unfold stat_OnEntryPassed, slot_acts, on_nodes, node_id. cbv zeta. flow_rewrite.
@@ -166,7 +169,7 @@ Proof.
 Qed.
 
 Theorem stat_OnEntryBlocked_ok x nd ft : x_res x <> NILNODE -> x_inb x = (ft =? 0) ->
-  slot_acts (stat_OnEntryBlocked (x_batch x) ft INB (node_id x)) (x, nd) =
+  slot_acts stat_recordPassFor stat_recordBlockFor stat_recordCompleteFor (stat_OnEntryBlocked (x_batch x) ft INB (node_id x)) (x, nd) =
   (x, on_nodes nd x (fun c => node_block c (x_batch x))).
 Proof.
   intros Hr Hi. flow_facts Hi. unfold stat_OnEntryBlocked, slot_acts, on_nodes, node_id. cbv zeta. flow_rewrite.
@@ -177,7 +180,7 @@ Qed.
 (* Slot.OnCompleted, the code's own arithmetic: the context keeps rt = uint64(now - start), the
    nodes are credited int64(rt) *)
 Theorem stat_OnCompleted_go x nd ft t : x_res x <> NILNODE -> x_inb x = (ft =? 0) ->
-  slot_acts (stat_OnCompleted (x_batch x) (x_err x) ft INB t (x_start x) (node_id x)) (x, nd) =
+  slot_acts stat_recordPassFor stat_recordBlockFor stat_recordCompleteFor (stat_OnCompleted (x_batch x) (x_err x) ft INB t (x_start x) (node_id x)) (x, nd) =
   let rt := u64 (t - x_start x) in
   (set_rt x rt, on_nodes nd x (fun c => node_done c (x_batch x) (i64 rt) (x_err x))).
 Proof.
@@ -197,7 +200,7 @@ Qed.
 
 Theorem stat_OnCompleted_ok x nd ft t : x_res x <> NILNODE -> x_inb x = (ft =? 0) ->
   0 <= x_start x <= t -> t < two63 ->
-  slot_acts (stat_OnCompleted (x_batch x) (x_err x) ft INB t (x_start x) (node_id x)) (x, nd) =
+  slot_acts stat_recordPassFor stat_recordBlockFor stat_recordCompleteFor (stat_OnCompleted (x_batch x) (x_err x) ft INB t (x_start x) (node_id x)) (x, nd) =
   (set_rt x (t - x_start x), on_nodes nd x (fun c => node_done c (x_batch x) (t - x_start x) (x_err x))).
 Proof.
   intros Hr Hi H1 H2. rewrite (stat_OnCompleted_go x nd ft t Hr Hi). cbv zeta.
@@ -211,7 +214,7 @@ Qed.
 Corollary run_stats_real_step s r x be nd lg ft : s_real s = true -> x_res x <> NILNODE -> x_inb x = (ft =? 0) ->
   run_stats (s :: r) x be nd lg =
   run_stats r x be
-    (snd (slot_acts (match be with
+    (snd (slot_acts stat_recordPassFor stat_recordBlockFor stat_recordCompleteFor (match be with
                      | None => stat_OnEntryPassed (x_batch x) ft INB (node_id x)
                      | Some _ => stat_OnEntryBlocked (x_batch x) ft INB (node_id x)
                      end) (x, nd))) lg.
@@ -224,7 +227,7 @@ Qed.
 Corollary run_done_real_step s r x t nd lg ft : s_real s = true -> x_res x <> NILNODE -> x_inb x = (ft =? 0) ->
   0 <= x_start x <= t -> t < two63 ->
   run_done (s :: r) x t nd lg =
-  let '(x', nd') := slot_acts (stat_OnCompleted (x_batch x) (x_err x) ft INB t (x_start x) (node_id x)) (x, nd) in
+  let '(x', nd') := slot_acts stat_recordPassFor stat_recordBlockFor stat_recordCompleteFor (stat_OnCompleted (x_batch x) (x_err x) ft INB t (x_start x) (node_id x)) (x, nd) in
   run_done r x' t nd' lg.
 Proof.
   intros Hs Hr Hi H1 H2. cbn [run_done]. rewrite Hs.
